@@ -90,7 +90,8 @@ fn run_synth(prop: &str, s: &Synth, rep: &mut Report, sample: bool) {
 		// suspect -> isolate -> confirm: timing-based suspicions must repeat in >= 4 of 5 healthy runs
 		let mut hits: BTreeMap<String, usize> = BTreeMap::new();
 		let mut healthy_runs = 0;
-		if checks::healthy(&h, 500) {
+		let limit = confirmed_later.iter().map(|f| f.health_ms).min().unwrap_or(500);
+		if checks::healthy(&h, limit) {
 			healthy_runs += 1;
 			for fd in &confirmed_later {
 				*hits.entry(fd.sig.clone()).or_default() += 1;
@@ -102,7 +103,7 @@ fn run_synth(prop: &str, s: &Synth, rep: &mut Report, sample: bool) {
 		let reruns = if slow { 2 } else { 4 };
 		for _ in 0..reruns {
 			let h2 = synth::run(s);
-			if !checks::healthy(&h2, 500) {
+			if !checks::healthy(&h2, limit) {
 				continue;
 			}
 			healthy_runs += 1;
